@@ -44,7 +44,7 @@ def n_cases(tier):
 
 def one_case(rng, tier):
     kind = rng.choice(['from_iterable', 'from_iterable', 'from_iterable_list', 'from_periodic', 'from_textfile',
-                       'filenames', 'custom', 'from_q'])
+                       'filenames', 'custom', 'from_q', 'custom_tornado'])
     poll = rng.choice([0.5, 1.0])
     svc = rng.choice([0, 0, 0.5, 1.5])
     ops = []
@@ -130,6 +130,27 @@ def check_case(case, counters, sets):
                         q.put(counter['n'])
                 for i in range(case['n_items']):
                     loop.call_later(0.3 + i * 0.75, put_some)
+            elif kind == 'custom_tornado':
+                # a source that overrides run() in tornado style: run() returns a Future, not a native coroutine
+                from tornado import gen as _gen
+                runs_t = {'n': 0}
+
+                class TornadoSource(Source):
+                    @_gen.coroutine
+                    def run(self):
+                        runs_t['n'] += 1
+                        rid = runs_t['n']
+                        log.add('RUN_BEGIN', 'src', rid)
+                        try:
+                            while not self.stopped:
+                                log.add('CYCLE_BEGIN', 'src', rid)
+                                counter['n'] += 1
+                                yield self._emit(counter['n'])
+                                yield _gen.sleep(poll)
+                                log.add('CYCLE_END', 'src', rid)
+                        finally:
+                            log.add('RUN_END', 'src', rid)
+                src = TornadoSource(asynchronous=True)
             else:
                 class Custom(Source):
                     async def _run(self):
@@ -151,8 +172,9 @@ def check_case(case, counters, sets):
                     await orig_run()
                 finally:
                     log.add('RUN_END', 'src', rid)
-            src.run = run_wrapped
-            if hasattr(src, '_run') and kind not in ('from_iterable', 'from_iterable_list'):
+            if kind != 'custom_tornado':
+                src.run = run_wrapped
+            if hasattr(src, '_run') and kind not in ('from_iterable', 'from_iterable_list', 'custom_tornado'):
                 orig_cycle = src._run
 
                 async def cycle_wrapped():
@@ -167,6 +189,8 @@ def check_case(case, counters, sets):
             orig_emit = src._emit
 
             def emit_wrapped(x, metadata=None):
+                if kind == 'custom_tornado':
+                    return orig_emit(x, metadata=metadata)
                 log.add('SRC_EMIT', 'src', run_of_task.get(asyncio.current_task()), x)
                 return orig_emit(x, metadata=metadata)
             src._emit = emit_wrapped
